@@ -661,10 +661,13 @@ def run_corpus(ctx, _n=None):
     from tensorly.decomposition import _cp
     chk = ctx.chk
     entry = "tensorly.decomposition.parafac"
-    for fn in sorted(glob.glob(os.path.join(C.VERIF, "corpus", "C07", "*.json"))):
+    for fn in sorted(glob.glob(os.path.join(os.environ.get("C07_CORPUS_DIR") or os.path.join(C.VERIF, "corpus", "C07"), "*.json"))):
         try:
             d = json.load(open(fn))
         except Exception:
+            continue
+        if d.get("kind") == "parafac2_nn_linesearch":
+            corpus_parafac2(ctx, d, os.path.basename(fn))
             continue
         if d.get("kind") != "parafac_linesearch":
             continue
@@ -688,6 +691,93 @@ def run_corpus(ctx, _n=None):
         history_check(ctx, entry, inputs, out[1][1])
         if iterates:
             history_check(ctx, entry, inputs, [cp_objective_rel(X, w, f) for (w, f) in iterates], what="objective recomputed from callback iterates")
+
+
+def p2_active_problem(r, I, J, K, rank, noise):
+    """PARAFAC2 data whose non-negative A and C have about half of their entries exactly zero (every row keeps one entry) + dense noise:
+    the ALS iterates sit on the boundary of the orthant and the extrapolation of the line search leaves it (the clipping is ACTIVE)"""
+    A = (r.rand(I, rank) + 0.3) * (r.rand(I, rank) < 0.5); A[np.arange(I), r.randint(rank, size=I)] += 0.5
+    Cm = (r.rand(K, rank) + 0.3) * (r.rand(K, rank) < 0.5); Cm[np.arange(K), r.randint(rank, size=K)] += 0.5
+    Bm = r.rand(rank, rank) + np.eye(rank)
+    slices = []
+    for i in range(I):
+        P, _ = np.linalg.qr(r.randn(J, rank))
+        S = (P @ Bm) @ np.diag(A[i]) @ Cm.T
+        slices.append(S + noise * np.linalg.norm(S) / math.sqrt(S.size) * r.randn(J, K))
+    return slices
+
+
+def p2_rel_error(slices, dec):
+    from tensorly.parafac2_tensor import parafac2_to_slices
+    rec = parafac2_to_slices(dec)
+    n2 = math.sqrt(sum(float(np.sum(sl ** 2)) for sl in slices))
+    return math.sqrt(sum(float(np.sum((np.asarray(a) - np.asarray(b)) ** 2)) for a, b in zip(slices, rec))) / n2
+
+
+class LineStepProbe:
+    """records, for every call of PARAFAC2's line_step, whether the jump was accepted and whether the clipping of the non-negative modes changed
+    the extrapolated point (evidence that a corpus / generated input exercises 'accepted AND clipped'); the call itself is untouched"""
+
+    def __init__(self):
+        self.calls = []
+
+    def __enter__(self):
+        from tensorly.decomposition import _parafac2
+        self.cls = getattr(_parafac2, "_BroThesisLineSearch", None)
+        if self.cls is None:
+            return self
+        self.orig = self.cls.line_step
+        probe, orig = self, self.orig
+
+        def line_step(ls, iteration, tensor_slices, factors_last, weights, factors, projections, rec_error):
+            res = orig(ls, iteration, tensor_slices, factors_last, weights, factors, projections, rec_error)
+            try:
+                nn = ls.nn_modes if ls.nn_modes else []
+                nn = range(len(factors)) if nn == "all" else nn
+                accepted = res[0] is not factors
+                clipped = False
+                if accepted:
+                    # the accepted point has an exact zero where the straight extrapolation is negative
+                    for m_ in nn:
+                        d_ = np.asarray(factors[m_], dtype=float) - np.asarray(factors_last[m_], dtype=float)
+                        z_ = np.asarray(res[0][m_], dtype=float) == 0.0
+                        if np.any(z_ & (d_ < 0)):
+                            clipped = True
+                probe.calls.append((int(iteration), accepted, clipped))
+            except Exception:
+                pass
+            return res
+        self.cls.line_step = line_step
+        return self
+
+    def __exit__(self, *a):
+        if self.cls is not None:
+            self.cls.line_step = self.orig
+        return False
+
+
+def corpus_parafac2(ctx, d, name):
+    """corpus kind parafac2_nn_linesearch: parafac2(nn_modes=[0, 2], linesearch=True) stopped right after a line-search iteration whose jump is
+    ACCEPTED and CLIPPED on the recorded code: the error reported last must be the error of the returned decomposition (the acceptance test judged the
+    point it returns) and the history must be non-increasing"""
+    from tensorly.decomposition import _parafac2
+    chk = ctx.chk
+    entry = "tensorly.decomposition.parafac2"
+    I, J, K = [int(v) for v in d["shape"]]
+    rank = int(d["rank"])
+    slices = p2_active_problem(np.random.RandomState(int(d["data_seed"])), I, J, K, rank, float(d.get("noise", 0.3)))
+    kw = dict(tol=1e-300, init="random", random_state=int(d["random_state"]), linesearch=True, nn_modes=[0, 2], return_errors=True)
+    inputs = dict(shape=[I, J, K], rank=rank, variant="corpus:" + name, slices=slices, options=dict(kw, n_iter_max=int(d["n_iter_max"])))
+    attempt(ctx, entry)
+    with LineStepProbe() as lp:
+        out = C.call_impl(_parafac2.parafac2, [s_.copy() for s_ in slices], rank, n_iter_max=int(d["n_iter_max"]), timeout=60, **kw)
+    chk.hist("algorithm", "parafac2:corpus")
+    if out[0] != "ok":
+        raised(ctx, entry, out[1]); return
+    last = lp.calls[-1] if lp.calls else None
+    chk.hist("corpus parafac2 last line step", "accepted+clipped" if last and last[1] and last[2] else "accepted" if last and last[1] else "rejected / none")
+    history_check(ctx, entry, inputs, out[1][1])
+    reported_matches(ctx, entry, inputs, [out[1][1][-1]], [p2_rel_error(slices, out[1][0])])
 
 
 PARAFAC_VARIANTS = ["plain", "normalize", "svd", "userinit", "l2", "linesearch", "fixed0", "normalize+userw", "linesearch+normalize",
@@ -1094,6 +1184,7 @@ def run_parafac2(ctx, n_runs):
     from tensorly.parafac2_tensor import parafac2_to_slices
     chk, rng = ctx.chk, ctx.rng
     entry = "tensorly.decomposition.parafac2"
+    nmax_off = rng.randrange(4)
     for it in range(n_runs):
         r = np_rng(rng)
         I, J, K, rank = rng.choice([3, 4]), rng.choice([4, 5]), rng.choice([3, 4]), rng.choice([1, 2, 2])
@@ -1123,6 +1214,10 @@ def run_parafac2(ctx, n_runs):
         if nonneg: kw["nn_modes"] = [0, 2]
         if "normalize" in variant: kw["normalize_factors"] = True
         nmax = ((14 if ctx.tier == "quick" else 30) if "active" in variant else 14) if ls else 7
+        if ls and ctx.tier == "quick":
+            # line-search iterations are the iterations 6, 8, 10, 12 (0-based): stopping right after one makes the error reported LAST the one line_step
+            # returned, so the check 'final reported error == error of the returned decomposition' judges the accept/reject decision at no extra cost
+            nmax = [13, 7, 9, 11][(it // 8 + nmax_off) % 4] if "active" not in variant else [9, 13, 7, 11][(it // 8 + nmax_off) % 4]
         inputs = dict(shape=[I, J, K], rank=rank, variant=variant, slices=slices, options=kw)
         attempt(ctx, entry)
         with Capture() as cap:
@@ -1135,9 +1230,16 @@ def run_parafac2(ctx, n_runs):
         # objective recomputed from prefix runs: sqrt(sum_i ||X_i - P_i B diag(a_i) C'||^2) / ||X||
         n2 = math.sqrt(sum(float(np.sum(sl ** 2)) for sl in slices))
         objs, ok = [], True
-        prefixes = list(range(1, nmax + 1)) if (ctx.tier != "quick" or it % 2 == 0) else list(range(1, 5))
+        prefixes = list(range(1, nmax + 1))
         if "active" in variant:      # long runs: the line search starts after sweep 6; a few prefixes spread over the run
-            prefixes = [2, 7, 9, 13, 20, 30] if ctx.tier != "quick" else []
+            prefixes = [2, 7, 9, 13, 20, 30]
+        if ctx.tier == "quick":
+            # quick: a few prefix runs per run instead of all (a sub-sequence of a non-increasing history is non-increasing); with the line search
+            # the prefixes that END in a line-search iteration (7, 9, 11) are the informative ones, the final one is judged above without a prefix run
+            if ls:
+                prefixes = [p_ for p_ in ([2, 7] if it % 2 == 0 else [7, 9] if "active" not in variant else [7]) if p_ < nmax]
+            else:
+                prefixes = [1, 3, 5] if it % 2 == 0 else [2, 4]
         # the error reported last belongs to the returned decomposition (no prefix run needed)
         rec_f = parafac2_to_slices(out[1][0])
         final = math.sqrt(sum(float(np.sum((np.asarray(a) - np.asarray(b)) ** 2)) for a, b in zip(slices, rec_f))) / n2
@@ -1514,7 +1616,7 @@ def static_tie(chk):
 
 def PLAN(quick):
     return [(run_corpus, 0), (run_parafac, 80 if quick else 400), (run_fixed_modes, 12 if quick else 36), (run_nn_hals, 18 if quick else 120), (run_hals_nnls, 36 if quick else 300),
-            (run_tucker, 18 if quick else 120), (run_tucker_svd, 6 if quick else 24), (run_parafac2, 24 if quick else 72), (run_p2_linestep, 30 if quick else 120), (run_tr_als, 12 if quick else 80),
+            (run_tucker, 18 if quick else 120), (run_tucker_svd, 6 if quick else 24), (run_parafac2, 16 if quick else 72), (run_p2_linestep, 30 if quick else 120), (run_tr_als, 12 if quick else 80),
             (run_cmtf, 12 if quick else 80), (run_regressors, 12 if quick else 60)]
 
 
